@@ -21,10 +21,13 @@ type c16Case struct {
 	Svc     string `json:"svc"`
 	DeltaUs int    `json:"delta_us"` // close relative to the arrival of the packet
 	Extra   int    `json:"extra"`    // unrelated sockets open on the sender
+	Hops    int    `json:"hops"`     // hop budget of the sending socket: 0 default, 1: exactly the distance, 2: distance+1
+	CloseN  int    `json:"close_n"`  // that many of the unrelated sockets are closed at the very instant the notice arrives
 }
 
 type C16Plan struct {
 	N      int       `json:"n"`
+	MaxHop int       `json:"max_hop"` // node-wide hop limit: 0 default (30), 1: number of nodes - 1, 2: number of nodes
 	Edges  [][2]int  `json:"edges"`
 	Cases  []c16Case `json:"cases"`
 	Shrink []string  `json:"_shrink"`
@@ -34,6 +37,7 @@ func genC16(seed uint64, tier string) any {
 	r := simnet.NewRng(seed, "c16")
 	p := &C16Plan{Shrink: []string{"cases"}}
 	p.N = r.Range(2, 5)
+	p.MaxHop = simnet.Pick(r, []int{0, 0, 1, 2})
 	for i := 1; i < p.N; i++ {
 		p.Edges = append(p.Edges, [2]int{r.Intn(i), i})
 	}
@@ -63,6 +67,10 @@ func genC16(seed uint64, tier string) any {
 		if c.Kind == "local" {
 			c.To = c.From
 		}
+		c.Hops = simnet.Pick(r, []int{0, 0, 1, 2})
+		if r.Bool(0.5) {
+			c.CloseN = r.Range(1, 4)
+		}
 		switch r.Intn(3) {
 		case 0:
 			c.DeltaUs = r.Range(1, 50)
@@ -85,6 +93,12 @@ func runC16(t *testing.T, planAny any, res *simnet.Result) {
 		k.ServiceAd = 0
 		k.RouteUpdate = time.Hour
 		k.MaxIdle = 3 * time.Hour
+		switch p.MaxHop {
+		case 1:
+			k.MaxHops = p.N - 1 // still at least the longest possible route
+		case 2:
+			k.MaxHops = p.N
+		}
 		ids := make([]string, p.N)
 		for i := range ids {
 			ids[i] = fmt.Sprintf("n%d", i)
@@ -196,8 +210,22 @@ func runC16(t *testing.T, planAny any, res *simnet.Result) {
 					rules, _ := netceptor.ParseFirewallRules([]netceptor.FirewallRuleData{{"action": "drop", "toservice": c.Svc, "fromservice": fs}})
 					_ = dst.Net().AddFirewallRules(rules, true)
 				}
+				if hops := len(m.RoutePath(src.ID, dst.ID)) - 1; c.Hops > 0 && hops > 0 {
+					spc.SetHopsToLive(byte(hops + c.Hops - 1))
+					res.Add("probe_tight_hop_budget", 1)
+				}
 				payload := fmt.Sprintf("case-%d", ci)
 				t0 := w.Now()
+				if c.CloseN > 0 && c.Kind != "local" {
+					// other sockets of the sender go away at the instant the answer comes in
+					for e := 0; e < c.CloseN && e < len(extras); e++ {
+						go func(pc netceptor.PacketConner, e int) {
+							w.SleepUntil(t0 + 2*oneWay)
+							_ = pc.Close()
+						}(extras[e], e)
+					}
+					res.Add("fault_close_during_notice", 1)
+				}
 				closeAt := time.Duration(-1)
 				switch c.Kind {
 				case "closed-before":
